@@ -168,4 +168,101 @@ theorem C15_idempotent (L : Lexer) (T : Tables) (strict : Bool) (t t' : Tree) (h
     (pruneT L T strict t').1 = some t' ∧ prunedList L T strict t' = [] :=
   prune_fix L T strict t' (C15_post L T strict t t' h)
 
+/-! ### the returned list -/
+
+theorem pruneT_id (L : Lexer) (T : Tables) (strict : Bool) (t t' : Tree) (h : (pruneT L T strict t).1 = some t') :
+    t'.id = t.id := by
+  cases t with
+  | mk i n c tl p a e ns cs =>
+    simp only [pruneT] at h
+    split at h
+    · simp only [Option.some.injEq] at h; subst h; rfl
+    · split at h
+      · cases h
+      · simp only [Option.some.injEq] at h; subst h; rfl
+
+theorem disallowed_ids (T : Tables) (pn : String) (cs : List Tree) : ∀ x ∈ disallowed T pn cs, x.1 ∈ cs.map Tree.id ∧ x.2 = .notAllowed := by
+  intro x hx
+  simp only [disallowed, List.mem_map, List.mem_filter] at hx
+  obtain ⟨c, ⟨hc, _⟩, rfl⟩ := hx
+  exact ⟨List.mem_map.mpr ⟨c, hc, rfl⟩, rfl⟩
+
+theorem mem_preorderL_of_child : ∀ (cs : List Tree) (c : Tree), c ∈ cs → ∀ x ∈ Tree.preorder c, x ∈ Tree.preorderL cs
+  | [], _, h, _, _ => by cases h
+  | d :: ds, c, h, x, hx => by
+    simp only [Tree.preorderL, List.mem_append]
+    rcases List.mem_cons.mp h with rfl | h
+    · exact Or.inl hx
+    · exact Or.inr (mem_preorderL_of_child ds c h x hx)
+
+theorem self_mem_preorder (t : Tree) : t ∈ Tree.preorder t := by
+  cases t with
+  | mk i n c tl p a e ns cs => simp [Tree.preorder]
+
+mutual
+/-- every entry of the returned list names a node of the tree; the reason `invalid` is only given in strict mode -/
+theorem prunedList_nodes (L : Lexer) (T : Tables) (strict : Bool) : ∀ (t : Tree), ∀ x ∈ prunedList L T strict t,
+    x.1 ∈ (Tree.preorder t).map Tree.id ∧ (x.2 = .invalid → strict = true)
+  | .mk i n c tl p a e ns cs, x, hx => by
+    simp only [prunedList] at hx
+    split at hx
+    · cases hx
+    · split at hx
+      · simp only [List.mem_singleton] at hx; subst hx
+        exact ⟨by simp [Tree.preorder, Tree.id], fun h => by cases h⟩
+      · rcases List.mem_append.mp hx with hx | hx
+        · obtain ⟨h1, h2⟩ := disallowed_ids T n cs x hx
+          refine ⟨?_, fun h => by rw [h2] at h; cases h⟩
+          simp only [List.mem_map] at h1 ⊢
+          obtain ⟨c', hc', he⟩ := h1
+          exact ⟨c', by simp only [Tree.preorder]; exact List.mem_cons_of_mem _ (mem_preorderL_of_child cs c' hc' c' (self_mem_preorder c')), he⟩
+        · obtain ⟨h1, h2⟩ := prunedListKids_nodes L T strict n cs x hx
+          refine ⟨?_, h2⟩
+          simp only [List.mem_map] at h1 ⊢
+          obtain ⟨y, hy, he⟩ := h1
+          exact ⟨y, by simp only [Tree.preorder]; exact List.mem_cons_of_mem _ hy, he⟩
+theorem prunedListKids_nodes (L : Lexer) (T : Tables) (strict : Bool) (pn : String) : ∀ (cs : List Tree),
+    ∀ x ∈ prunedListKids L T strict pn cs, x.1 ∈ (Tree.preorderL cs).map Tree.id ∧ (x.2 = .invalid → strict = true)
+  | [], x, hx => by simp [prunedListKids] at hx
+  | c :: cs, x, hx => by
+    simp only [prunedListKids] at hx
+    have lift_tail : ∀ y, y ∈ (Tree.preorderL cs).map Tree.id → y ∈ (Tree.preorderL (c :: cs)).map Tree.id := by
+      intro y hy
+      simp only [Tree.preorderL, List.map_append, List.mem_append]; exact Or.inr hy
+    have lift_head : ∀ y, y ∈ (Tree.preorder c).map Tree.id → y ∈ (Tree.preorderL (c :: cs)).map Tree.id := by
+      intro y hy
+      simp only [Tree.preorderL, List.map_append, List.mem_append]; exact Or.inl hy
+    split at hx
+    · obtain ⟨h1, h2⟩ := prunedListKids_nodes L T strict pn cs x hx
+      exact ⟨lift_tail _ h1, h2⟩
+    · rcases List.mem_append.mp hx with hx | hx
+      · cases hr : (pruneT L T strict c).1 with
+        | none =>
+          rw [hr] at hx
+          obtain ⟨h1, h2⟩ := prunedList_nodes L T strict c x hx
+          exact ⟨lift_head _ h1, h2⟩
+        | some c' =>
+          rw [hr] at hx
+          simp only at hx
+          rcases List.mem_append.mp hx with hx | hx
+          · obtain ⟨h1, h2⟩ := prunedList_nodes L T strict c x hx
+            exact ⟨lift_head _ h1, h2⟩
+          · split at hx
+            · rename_i hs
+              simp only [List.mem_singleton] at hx; subst hx
+              refine ⟨lift_head _ ?_, fun _ => ?_⟩
+              · rw [pruneT_id L T strict c c' hr]
+                exact List.mem_map.mpr ⟨c, self_mem_preorder c, rfl⟩
+              · simp only [Bool.and_eq_true] at hs; exact hs.1
+            · cases hx
+      · obtain ⟨h1, h2⟩ := prunedListKids_nodes L T strict pn cs x hx
+        exact ⟨lift_tail _ h1, h2⟩
+end
+
+/-- the returned list names nodes of the tree that was pruned (never anything else), and gives the reason "invalid" only in
+    strict mode -/
+theorem C15_listed_are_nodes (L : Lexer) (T : Tables) (strict : Bool) (t : Tree) :
+    ∀ x ∈ prunedList L T strict t, x.1 ∈ (Tree.preorder t).map Tree.id ∧ (x.2 = .invalid → strict = true) :=
+  prunedList_nodes L T strict t
+
 end Metapype
